@@ -76,14 +76,14 @@ fn case(src: &mut Src, st: &mut Stats, _env: &Env) -> CaseResult {
     check_value(&tree, &sc, st, |t, e| nontrivial(t, e))
 }
 
-const PALETTE: [&str; 44] = [
+pub const PALETTE: [&str; 44] = [
     "0", "(- 0)", "0.0", "1", "(- 1)", "2", "3", "79228162514264337593543950335", "(- 79228162514264337593543950335)", "79228162514264337593543950334",
     "39614081257132168796771975168", "39614081257132168796771975167", "0.0000000000000000000000000001", "(- 0.0000000000000000000000000001)", "7.9228162514264337593543950335",
     "0.9999999999999999999999999999", "1.0000000000000000000000000001", "9223372036854775807", "(- 9223372036854775808)", "9223372036854775808", "(- 9223372036854775809)",
     "9223372036854775809", "18446744073709551616", "4294967296", "2147483648", "62", "63", "64", "65", "(- 63)", "(- 64)", "2.0", "2.5", "3.000", "0.5", "10", "100000000000000",
     "u0", "true", "\"a\"", "[]", "[1]", "0.1", "281474976710656",
 ];
-const OPS: [&str; 10] = ["+", "-", "*", "/", "%", "|", "^", "&", "<<", ">>"];
+pub const OPS: [&str; 10] = ["+", "-", "*", "/", "%", "|", "^", "&", "<<", ">>"];
 
 fn table_case(text: &str, tab: &crate::syntax::OpTable, st: &mut Stats) -> CaseResult {
     let (tree, _, _) = crate::syntax::parse_text(text, tab).map_err(|e| Failure::new("harness-bug:table", format!("{}: {}", text, e), json!({"text": text})))?;
